@@ -264,13 +264,35 @@ fn game_api(seed: &RSeed, allowed: &[Sq], len: u32, sink: &Sink) -> (u64, u64, u
         let mut game = Game::from_board(build_board(&root), 1);
         let mut p = root.clone();
         for (i, m) in s.iter().enumerate() {
-            let r = guarded(|| game.apply_chess_move_by_from_to_coordinates(bb(m.from), bb(m.to)));
+            // moves are entered alternately by coordinates and by their notation (two entry points)
+            let r = if (i + games as usize) % 2 == 0 {
+                guarded(|| game.apply_chess_move_by_from_to_coordinates(bb(m.from), bb(m.to)))
+            } else {
+                let legal = p.legal_moves();
+                let label = crate::refchess::san::san(&p, m, &legal);
+                guarded(|| game.apply_chess_move_from_raw_algebraic_notation(label))
+            };
             if !matches!(r, Ok(Ok(_))) {
                 sink.push(Violation { prop: "C17".into(), class: "game-api-refuses-legal-move".into(), seed: seed.fen.into(), path: s.iter().map(uci).collect(), detail: format!("{:?}", r.map(|x| x.map(|_| ()).map_err(|e| e.to_string()))), extra: json!({"kind": "c17-game", "seed": seed.name}) });
                 break;
             }
             game.board_mut().toggle_turn();
             p = p.make(m);
+            if !hits.contains(&i) {
+                // before the third occurrence the game must not be reported drawn
+                let e = guarded(|| game.check_game_over_for_current_turn());
+                if matches!(e, Ok(Some(GameEnding::Draw))) {
+                    sink.push(Violation {
+                        prop: "C17".into(),
+                        class: "game-api-draws-before-third-occurrence".into(),
+                        seed: seed.fen.into(),
+                        path: s[..=i].iter().map(uci).collect(),
+                        detail: format!("position {} reported drawn although no position has occurred three times yet (max_seen_position_count = {})", p.to_fen(), game.board().max_seen_position_count()),
+                        extra: json!({"kind": "c17-game", "seed": seed.name}),
+                    });
+                    break;
+                }
+            }
             if hits.contains(&i) {
                 third += 1;
                 let e = guarded(|| game.check_game_over_for_current_turn());
